@@ -36,8 +36,13 @@ RULE = ("TWIN pipelines (cached / uncached) from the C02 generator (1..4 structu
         "with >= 2 calls and >= 1 cached function (map: >= 1 repeated input value); distinct by (pipeline, cache type, "
         "history)")
 ASSUMPTIONS = ["values are strings (structural bodies); user functions are deterministic and do not raise",
-               "non-shared caches, sequential execution; lazy pipelines and shared-cache parallel map runs are not exercised",
-               "every pipeline of a history is well-formed (mutations are generated so that construction-time validation "
+               "call histories: non-shared caches, sequential execution; lazy pipelines are not exercised",
+               "shared-cache parallel map runs: PROVED at the granularity of atomic cache operations (one read, one write per "
+               "invocation, arbitrary actions of other clients in between: C09_map_shared_read/_write); SAMPLED on the real "
+               "code: pipeline.map under a ThreadPoolExecutor (2..8 workers) with LRUCache(shared=True, max_size 1..3) and "
+               "repeated input values - only the results are compared (execution counts are not required to be minimal "
+               "under races); process pools and OS-level timing are not explored",
+               "every pipeline of a history is well-formed (the ONLY side condition of the theorems; roots_okb is proved from it); mutations are generated so that construction-time validation "
                "accepts the result); update_bound never binds a parameter that has an explicit default",
                "the cached twin is constructed with an explicit cache_type (Pipeline.cache is not None)",
                "only the simple / lru policies (and DiskCache without eviction, which behaves as simple) are compared with "
@@ -69,6 +74,8 @@ def _model_ct(cache):
     kw = cache.get("kw", {})
     if t == "simple":
         return 0, 0
+    if t == "lru" and kw.get("shared"):
+        return 3, 0                      # shared cache under a thread pool: only the returned values are observed
     if t == "lru":
         return 1, kw.get("max_size", 128)
     if t == "disk" and kw.get("max_size") is None:
@@ -144,7 +151,7 @@ class _CacheDir:
         t = self.cache["type"]
         kw = dict(self.cache.get("kw", {}))
         if t in ("lru", "hybrid"):
-            kw["shared"] = False
+            kw.setdefault("shared", False)
         if t == "disk":
             self.dir = tempfile.mkdtemp(prefix="verif_c09_")
             kw["cache_dir"] = self.dir
@@ -234,9 +241,12 @@ def _run_map(c):
     noev = _model_ct(c["cache"])[0] in (0, 2)
     sink = io.StringIO()
     with contextlib.redirect_stdout(sink):
+        workers = (c.get("par") or {}).get("workers")
+
         def twin(**pkw):
             """[(result obs | Err, executions)] for the one or two map runs on ONE pipeline object."""
             log = mapsym.CallLog()
+            threaded = workers if pkw else None      # only the cached twin runs under the thread pool
             out = []
             try:
                 p = mapsym.build_pipeline(req, log, **pkw)
@@ -246,7 +256,15 @@ def _run_map(c):
             def run(rq):
                 n0 = len(log.read())
                 try:
-                    r = p.map(mapsym.map_inputs(rq), internal_shapes=mapsym.internal_arg(rq), storage="dict", parallel=False)
+                    if threaded:
+                        from concurrent.futures import ThreadPoolExecutor
+
+                        with ThreadPoolExecutor(threaded) as ex:
+                            r = p.map(mapsym.map_inputs(rq), internal_shapes=mapsym.internal_arg(rq), storage="dict",
+                                      parallel=True, executor=ex)
+                    else:
+                        r = p.map(mapsym.map_inputs(rq), internal_shapes=mapsym.internal_arg(rq), storage="dict",
+                                  parallel=False)
                     return ["ok", mapsym.results_obs(rq, r)], len(log.read()) - n0
                 except Exception as e:  # noqa: BLE001
                     return Err(e), -1
@@ -421,10 +439,11 @@ def _subsets(n):
         yield mask
 
 
-def _gen_map(rng):
+def _gen_map(rng, big=False):
     while True:
-        req = mapgen.gen_request(rng, storages=("dict",), allow_internal=False)   # internal axes: C01's subject
-        if mapgen.request_size(req) <= 30:
+        req = mapgen.gen_request(rng, storages=("dict",), allow_internal=False,   # internal axes: C01's subject
+                                 max_size=4 if big else 3)
+        if mapgen.request_size(req) <= (60 if big else 30) and (not big or mapgen.request_size(req) >= 6):
             break
     req = copy.deepcopy(req)
     for kv in req["inputs"]:
@@ -437,7 +456,7 @@ def _gen_map(rng):
 
 def generate(rng, tier, mult):
     quick = tier == "quick"
-    n_pipes = (24 if quick else 100) * mult
+    n_pipes = (22 if quick else 100) * mult
     cases = []
     for _ in range(n_pipes):
         base = pipegen.gen_pipeline(rng, nmax=4)
@@ -461,19 +480,27 @@ def generate(rng, tier, mult):
                     length = rng.randint(2, 6)
                     h = _gen_history(rng, pd, pl, length, p_mut=rng.choice([0.0, 0.15, 0.3]))
                     cases.append({"kind": "hist", "p": pd, "cache": cache, "h": h})
-    for _ in range((50 if quick else 1000) * mult):
+    for _ in range((44 if quick else 1000) * mult):
         cache = rng.choice(_cache_choices(rng, tier))
         req = _gen_map(rng)
         r = rng.random()
         second = None if r < 0.35 else {"replace": None if r < 0.65 else rng.randrange(len(req["funcs"]))}
         cases.append({"kind": "map", "req": req, "second": second, "cache": cache})
+    # shared cache under a thread pool: LRUCache(shared=True) with a small max_size (evictions by the other workers
+    # between the operations of one invocation), inputs with repeated values
+    for _ in range((14 if quick else 220) * mult):
+        req = _gen_map(rng, big=True)
+        r = rng.random()
+        second = None if r < 0.5 else {"replace": None if r < 0.8 else rng.randrange(len(req["funcs"]))}
+        cases.append({"kind": "map", "req": req, "second": second, "par": {"workers": rng.choice([2, 4, 8])},
+                      "cache": {"type": "lru", "kw": {"max_size": rng.choice([1, 1, 2, 3]), "shared": True}}})
     return cases
 
 
 def nontrivial_key(c):
     if c["kind"] == "map":
         rep = any(isinstance(v, dict) and len(set(v["d"])) < len(v["d"]) for _, v in c["req"]["inputs"])
-        return ("map", json.dumps(c["req"], sort_keys=True), json.dumps(c.get("second")),
+        return ("map", json.dumps(c["req"], sort_keys=True), json.dumps(c.get("second")), json.dumps(c.get("par")),
                 json.dumps(c["cache"], sort_keys=True)) if rep else None
     ncalls = sum(1 for st in c["h"] if st["k"] == "call")
     if ncalls < 2 or not any(f.get("cached") for f in c["p"]["funcs"]):
@@ -487,6 +514,7 @@ def distribution(c):
     if c["kind"] == "map":
         sec = c.get("second")
         d["map_runs"] = "1" if sec is None else ("2 same" if sec["replace"] is None else "2 replace between")
+        d["map_exec"] = "thread pool, shared cache" if c.get("par") else "sequential"
     if c["kind"] == "hist":
         d["len"] = len(c["h"])
         d["ncached"] = sum(1 for f in c["p"]["funcs"] if f.get("cached"))
